@@ -119,7 +119,7 @@ theorem step_pos {o : Oracle} {op : Nat} {s s' : St} {io io' : Io} {e : Ev}
     obtain ⟨p, rfl⟩ := hf
     refine ⟨?_, trivial, by simp [Ev.req], by simp [Ev.used], by simp [Ev.used]⟩
     simp [St.pos, ensureInitialized, St.new, Ev.step]
-  | copy hI hw hst hrm hc hn h =>
+  | copy hI hw hop hnf hst hrm hc hn h =>
     have hlen : (io.input.take (copyN s io)).length = copyN s io := by rw [List.length_take]; omega
     have hnfl : s.streamState ≠ .flushRequested := by rw [hst]; simp
     obtain ⟨_, i2, _, _⟩ := inv_copy hI hnfl (by rw [hlen]; exact Nat.min_le_left _ _)
@@ -143,7 +143,7 @@ theorem step_pos {o : Oracle} {op : Nat} {s s' : St} {io io' : Io} {e : Ev}
     unfold St.pos Ev.step
     simp only [Pos.mk.injEq]
     exact ⟨f.2.1, a2, a1, a7⟩
-  | encSlow hI hop hrm hnc hnp hpend hst hgo h =>
+  | encSlow hI hop hnf hrm hnc hnp hpend hst hgo h =>
     have hI2 := inv_updateSizeHint hI io.availIn
     obtain ⟨p1, p2⟩ := encodeData_posEv hI2 (by omega : (0 : Nat) ≠ 2) h
     rw [updateSizeHint_pos] at p1 p2
@@ -184,10 +184,6 @@ theorem step_pos {o : Oracle} {op : Nat} {s s' : St} {io io' : Io} {e : Ev}
     refine ⟨rfl, trivial, by simp [Ev.req, mdTinyIo], ?_, by simp [Ev.used, hlen]; omega⟩
     simp only [Ev.used, hlen]; rfl
 
-theorem isFreshInit {s : St} (h : IsFresh s) : s.isInitialized = false := by
-  obtain ⟨p, rfl⟩ := h
-  rfl
-
 theorem fastStorage_init (s : St) (ip : Bool) (n : Nat) : (fastStorage s ip n).isInitialized = s.isInitialized := by
   unfold fastStorage growStorage
   split
@@ -208,7 +204,7 @@ theorem step_initialized {o : Oracle} {op : Nat} {s s' : St} {io io' : Io} {e : 
     refine ⟨?_, fun _ _ => (isFreshInit hf)⟩
     obtain ⟨p, rfl⟩ := hf
     simp [ensureInitialized, St.new]
-  | copy hI hw hst hrm hc hn h =>
+  | copy hI hw hop hnf hst hrm hc hn h =>
     obtain ⟨_, _, _, c4, _⟩ := copy_fields hI.init h
     exact ⟨c4.trans hI.init, fun _ hh => by cases hh⟩
   | pad hI hc hz h =>
@@ -219,7 +215,7 @@ theorem step_initialized {o : Oracle} {op : Nat} {s s' : St} {io io' : Io} {e : 
     obtain ⟨f, _⟩ := push_frame h
     rw [St.frame_eq_iff] at f
     exact ⟨f.2.2.2.2.1.trans hI.init, fun _ hh => by cases hh⟩
-  | encSlow hI hop hrm hnc hnp hpend hst hgo h =>
+  | encSlow hI hop hnf hrm hnc hnp hpend hst hgo h =>
     obtain ⟨f, _⟩ := encodeData_frame h
     rw [St.frame_eq_iff] at f
     obtain ⟨_, _, _, k4, _⟩ := markAfterEncode_fields _ (slowIl op io) (slowFf op io)
